@@ -389,6 +389,10 @@ def snake_removal(self, left=False):
                     or not left_snake and diagram.offsets[cup] != wire
                 if not_yankable:
                     continue
+                cap_box, cup_box = diagram.boxes[cap], diagram.boxes[cup]
+                if left_snake and cap_box.cod[1:] != cup_box.dom[:1]\
+                        or not left_snake and cap_box.cod[:1] != cup_box.dom[1:]:
+                    continue  # not a snake: the surviving wire changes type
                 return cup, cap, obstructions, left_snake
         return None
 
